@@ -57,7 +57,8 @@ def step(rec, node, rule, check_original=False):
     try:
         change = rule.apply_to(copy)
         new_root = S.root_of(change.result)
-    except Exception:
+        S.shadow(new_root)   # a cyclic result (already reported by the monitor) is not driven further
+    except (Exception, RecursionError):
         new_root = None
     if check_original:
         rec.ev()
@@ -133,7 +134,8 @@ def inplace_chain(rec, root, rules, rng, steps=6, big=False, on_step=None):
         try:
             change = rule.apply_to(node)
             cur = S.root_of(change.result)
-        except Exception:
+            S.shadow(cur)
+        except (Exception, RecursionError):
             break
         done.append((label, getattr(node, "r_index", None)))
         if on_step is not None and on_step(cur, done) is False:
